@@ -66,6 +66,9 @@ def decorate(b, rng, claims=True, finality=False, storefaults=False, l2reorgs=Fa
         if s["a"] == "tick" and cfg.get("mode", "pp") != "fep" and rng.random() < 0.15:
             # the L2 syncer stores a new block (one exit) while the node reads the L2 bridge store for this tick
             s["midblock"] = rng.randrange(1, 120)
+        if s["a"] == "tick" and finality and "midblock" not in s and rng.random() < 0.15:
+            # a read of the L1 info store fails while the claims' proofs are generated: no certificate, or a right one
+            s["l1readfault"] = rng.randrange(1, 300)
         if s["a"] == "tick" and storefaults and s.get("o") == "ok" and rng.random() < 0.5:
             s["storefail"] = rng.choice([1, 2, 4] if forever else [1, 2])   # the first save attempts fail as a whole; the save is retried
         if s["a"] == "tick" and storefaults and not forever and s.get("o") == "crash_after_submit" and rng.random() < 0.5:
